@@ -155,6 +155,12 @@ CHECKS = {
     "C07": Elementwise(["int"], RULE_EW, {
         "quick": "every lane value (8/16-bit exhaustive, 32/64-bit lattice) x every count in [0,bits), scalar-count and per-lane-count forms, every lane offset; bitwise operators on the C01 pair spaces; all 22 architectures",
         "thorough": "as quick plus all 2^32 16-bit pairs for the bitwise operators and full lane-offset product for 16-bit per-lane counts"}),
+    "C02": Elementwise(["fp"], RULE_EW, {
+        "quick": "unary: special-value lattice (incl. 64 seed bit patterns + 64 moderate seed values) x all lane offsets and every binade x 64 mantissa patterns; binary: lattice^2 (about 900^2 float, 1000^2 double); ternary: compact lattice^3; ldexp: lattice x every exponent in [-300,300] / [-2200,2200]; all 22 architectures",
+        "thorough": "as quick plus all 2^32 float32 bit patterns for every unary operation and 256 mantissa patterns per double binade"}),
+    "C08": Elementwise(["fp"], RULE_EW, {
+        "quick": "every k/2 and its two neighbours for |k| <= 2^13, +-64-ulp windows at 2^22..2^25, 2^30..2^33, 2^51..2^54, 2^62..2^64, special lattice x all lane offsets, every binade x 64 mantissa patterns; results compared as numbers; all 22 architectures",
+        "thorough": "as quick plus all 2^32 float32 bit patterns, |k| <= 2^16 and 256 mantissa patterns per double binade"}),
 }
 
 
